@@ -96,9 +96,11 @@ def fchebyshev_split(x, m):
         dt = x.dtype
     except AttributeError:
         dt = np.float64
+    if not np.issubdtype(dt, np.inexact):
+        dt = np.float64
     leg = np.ones((m, n), dtype=dt)
     try:
-        leg[0, :] = (x >= 0).astype(x.dtype)
+        leg[0, :] = (x >= 0).astype(dt)
     except AttributeError:
         leg[0, :] = np.double(x >= 0)
     if m > 2:
@@ -134,6 +136,8 @@ def fpoly(x, m):
     try:
         dt = x.dtype
     except AttributeError:
+        dt = np.float64
+    if not np.issubdtype(dt, np.inexact):
         dt = np.float64
     leg = np.ones((m, n), dtype=dt)
     if m >= 2:
